@@ -190,6 +190,28 @@ def run(M, c):
             got = repr(e)
         M.check("operators", ok, f"C20/operator{name}" + (":day-component" if d.days else ""), "Time +/- timedelta wrong",
                 t=str(t), delta_us=c["td"], got=got)
+    # the operand being a pendulum Duration / Interval (timedelta subclasses): below one day -> exact (a negative one may
+    # also be rejected, see above), from one whole day on (weeks, days, an interval of a week) -> TypeError
+    P = M.pendulum
+    ds = c["td"] % (6 * 3600 * US)
+    wk = (c["td"] // 7) % 3
+    opers = [("dur-subday", P.duration(microseconds=ds)), ("dur-neg-subday", P.duration(microseconds=-ds)),
+             ("dur-weeks", P.duration(weeks=wk + 1, microseconds=ds)), ("dur-days", P.duration(days=wk + 1, hours=c["td"] % 5)),
+             ("dur-implied-days", P.duration(hours=24 * 7 * (wk + 1) + c["td"] % 5)),
+             ("interval-week", P.DateTime(2021, 3, 1, tzinfo=P.UTC).add(days=7 * (wk + 1), microseconds=ds) - P.DateTime(2021, 3, 1, tzinfo=P.UTC)),
+             ("interval-subday", P.DateTime(2021, 3, 1, tzinfo=P.UTC).add(microseconds=ds) - P.DateTime(2021, 3, 1, tzinfo=P.UTC))]
+    for oname, d_ in opers:
+        tot = td_us(d_)
+        for name, fn, sign in (("+", lambda: t + d_, 1), ("-", lambda: t - d_, -1)):
+            try:
+                r_ = fn()
+                ok = abs(tot) < DAY and type(r_) is T and tus(r_) == (c["t"] + sign * tot) % DAY
+                got = str(r_)
+            except TypeError as e:
+                ok = abs(tot) >= DAY or tot < 0
+                got = repr(e)
+            M.check("operators", ok, f"C20/operator{name}:{oname}", "Time +/- Duration/Interval wrong (below a day: exact; with a day component: TypeError)",
+                    t=str(t), operand=repr(d_), got=got)
     # diff / t2 - t1 / closest / farthest (contracts judge diff, closest, farthest)
     t2, t3 = _mk(M, c["t2"]), _mk(M, c["t3"])
     if (c["t2"] - c["t"]) % US:
